@@ -699,6 +699,13 @@ theorem pickle_same (S : PrintPrec) (e : Expr) (listed : List String) (c : Compi
 theorem compile_printer_is_stringifier (S : PrintPrec) (e : Expr) (enc : Nat) :
     strG S (constPieces S) e enc = strE S e enc := strG_eq_strE S e enc
 
+/-- … and since the repair of `CompileMapper.map_constant` (`repr` + the base class's sign
+parenthesisation) its constant printer is the stringifier's too: `CompileMapper.rec` IS
+`StringifyMapper.rec` on the modelled fragment -/
+theorem compile_printer_is_stringifier_repaired (S : PrintPrec) (e : Expr) (enc : Nat) :
+    strG S (constPiecesRepr S) e enc = strE S e enc := by
+  rw [constPiecesRepr_eq]; exact strG_eq_strE S e enc
+
 
 /-! ## The compiled SOURCE under Python's grammar
 
@@ -708,7 +715,8 @@ that is the hand-written reference of DESIGN.md §3.4, tied to CPython's `ast.pa
 by the stream `py-table` (all skeletons with ≤ 2 operators, sampled / all 3-operator skeletons,
 random deeper strings) EXCEPT on four shapes that the SCHEME of the parser model cannot express
 whatever the numbers; they are pinned down below (`python_table_grouping`, `python_table_prefix`,
-and the else-branch, read at the lowest level).  The round-trip theorem of C06, instantiated with
+and the else-branch, read at the lowest level).  The compile printer is the stringifier
+(`compile_text_is_str`); the round-trip theorem of C06, instantiated with
 (`pythonPrec`, stringifier table), then says: the source text of a tree of the fragment is read
 back, under the Python table, as the tree itself. -/
 
@@ -788,59 +796,46 @@ example : parseTop pythonPrec 0 [.ident "a", .sym "&", .ident "b", .sym "==", .i
 example : parseTop pythonPrec 0 [.ident "a", .sym "|", .ident "b", .sym "^", .ident "c"]
     = .ok (.nary .bor [.var "a", .nary .bxor [.var "b", .var "c"]]) := by decide +kernel
 
-/-- **Where no signed constant needs parentheses, the compiled source IS the stringifier's
-text**: `CompileMapper` differs from the stringifier in `map_constant` only (`repr`, never
-parenthesised). -/
-theorem compile_text_is_str (S : PrintPrec) (e : Expr) (h : reprSame S e S.none = true) :
-    compilePieces S e = strTop S e :=
-  strG_repr_eq_strE S e S.none h
+/-- **The compiled source IS the stringifier's text** (unconditionally, since the repair of
+`CompileMapper.map_constant`; before it this held only where no signed constant needed
+parentheses). -/
+theorem compile_text_is_str (S : PrintPrec) (e : Expr) : compilePieces S e = strTop S e :=
+  compile_printer_is_stringifier_repaired S e S.none
 
-/-- **The compiled source groups the way the tree does, for ANY parser table and printer table**
-(the round-trip theorem of C06, proved again for the printer `compile()` really uses: constants
-through `repr`, never parenthesised — PV/Proofs/C13Syn*.lean).  For every tree of the fragment
-`C13R.InFragment P S` (covered node shapes; every child passes the local condition
-`C13R.okTriple P S position class`) the compiled source exists, its token list is parsed —
+/-- **The compiled source groups the way the tree does, for ANY parser table and printer table**:
+the round-trip theorem of C06 applied to the compiled source.  For every tree of the C06 fragment
+`InFragment P S` (covered node shapes; every child passes the local condition
+`okTriple P S position class`) the compiled source exists, its token list is parsed —
 completely, with the fuel `parseTop` really uses — to the parser's normal form `pnf e` of the
 tree, which is `e` once nested sums and products are flattened, and compiling that normal form
 gives the same source again. -/
 theorem compile_source_groups_partial {P : ParserPrec} {S : PrintPrec} {e : Expr}
-    (h : C13R.InFragment P S e = true) :
+    (h : InFragment P S e = true) :
     ∃ ps, compilePieces S e = .ok ps ∧ parseTop P 0 (toks ps) = .ok (pnf e) ∧
       flattenAssoc (pnf e) = flattenAssoc e ∧ compilePieces S (pnf e) = .ok ps := by
-  simp only [C13R.InFragment, Bool.and_eq_true] at h
-  obtain ⟨ps, hs⟩ := C13R.str_total h.1 S.none
-  refine ⟨ps, hs, C13R.parseTop_str h.1 h.2 hs, C13R.flatten_pnf h.1, ?_⟩
-  have := C13R.str_pnf h.1 S.none
-  simp only [compilePieces]
-  rw [this]; exact hs
+  obtain ⟨ps, hs⟩ := C06.print_total h
+  have hp := C06.roundtrip_normal_form h hs
+  simp only [InFragment, Bool.and_eq_true] at h
+  refine ⟨ps, by rw [compile_text_is_str]; exact hs, hp, flatten_pnf h.1, ?_⟩
+  rw [compile_text_is_str, ← hs]
+  exact str_pnf h.1 S.none
 
 /-- the compiler's printer does not see the nesting of sums and products -/
 theorem compile_flatten_invariant (S : PrintPrec) {e : Expr} (h : nonemptyNary e = true) :
-    compilePieces S (flattenAssoc e) = compilePieces S e :=
-  C13R.str_flatten S h S.none
+    compilePieces S (flattenAssoc e) = compilePieces S e := by
+  rw [compile_text_is_str, compile_text_is_str]
+  exact C06.str_flatten_invariant S h
 
 /-- the same with sums and products nested in any way (the local conditions are checked on the
 flattened tree) -/
 theorem compile_source_groups_flat_partial {P : ParserPrec} {S : PrintPrec} {e : Expr}
-    (h : C13R.InFragmentFlat P S e = true) :
+    (h : InFragmentFlat P S e = true) :
     ∃ ps e', compilePieces S e = .ok ps ∧ parseTop P 0 (toks ps) = .ok e' ∧
       flattenAssoc e' = flattenAssoc e := by
-  simp only [C13R.InFragmentFlat, Bool.and_eq_true] at h
+  simp only [InFragmentFlat, Bool.and_eq_true] at h
   obtain ⟨ps, hps, hparse, hflat, _⟩ := compile_source_groups_partial h.2
   refine ⟨ps, _, by rw [← compile_flatten_invariant S h.1]; exact hps, hparse, ?_⟩
   rw [hflat, flattenAssoc_idem]
-
-/-- the literal instance of the C06 theorem: where every signed constant sits in a position in
-which `str` prints it bare (`reprSame`), the compiled source is the stringifier's text and
-`C06.roundtrip_partial` for (parser table, stringifier table) applies as it stands -/
-theorem compile_source_groups_via_str_partial {P : ParserPrec} {S : PrintPrec} {e : Expr}
-    (h : InFragment P S e = true) (hc : reprSame S e S.none = true) :
-    ∃ ps, compilePieces S e = .ok ps ∧ parseTop P 0 (toks ps) = .ok (pnf e) ∧
-      flattenAssoc (pnf e) = flattenAssoc e := by
-  obtain ⟨ps, hs⟩ := C06.print_total h
-  refine ⟨ps, by rw [compile_text_is_str S e hc]; exact hs, C06.roundtrip_normal_form h hs, ?_⟩
-  simp only [InFragment, Bool.and_eq_true] at h
-  exact flatten_pnf h.1
 
 /-- what `compile` stores as the body of the lambda is the rendering of `compilePieces` -/
 theorem compile_src_is_render {S : PrintPrec} {e : Expr} {listed : List String} {c : Compiled}
@@ -891,15 +886,14 @@ theorem compile_source_groups_flat_current {e : Expr} {listed : List String} {c 
   exact ⟨ps, e', hps, (compile_src_is_render hc hps).1, hparse, hflat⟩
 
 /-- **Which (position, child class) pairs fail the local condition of C13** for the Python table
-and the regenerated stringifier table — exactly these 42:
+and the regenerated stringifier table — exactly these 40:
 * GENUINE DEFECTS (known findings `compile:<Parent>>LogicalNot`, 12 parent classes): an
   unparenthesised `not …` as an operand of `+ * / // % << >> & ^ |`, of a comparison, or of `~`
   (the printer ranks `not` with the unary operators; Python reads `not a == b` as
-  `not (a == b)` and rejects `a * not b`); and `compile:Power>negative-int` /
-  `compile:Power>negative-float`: a negative constant as the base of a power (`-2**a`);
-* a negative constant as a callee / aggregate (`-2(x)`, `-2[x]`, `-2.5.real`): misread as well,
-  but a number cannot be called or subscripted and `(-2.5).real = -(2.5.real)`: no observable
-  difference, no finding;
+  `not (a == b)` and rejects `a * not b`);
+* NO LONGER in the list since the repair of `CompileMapper.map_constant` (findings
+  `compile:Power>negative-int`, `compile:Power>negative-float`, now fixed): a negative constant
+  as the base of a power or as a callee — `neg_const_pairs_ok`;
 * NO DEFECT, the reparsed tree is nested differently but has the same value: a product as a
   non-last operand of a product / a sum as a non-first operand of a sum (equal once flattened;
   `compile_source_groups_flat_current`); a `& ^ | and or` node as the RIGHT operand of the same
@@ -916,7 +910,6 @@ theorem source_bad_pairs_current : gBadPairs pythonPrec printPrec =
      (.std (.left .times), .nary .prod), (.std (.left .times), .un .lnot),
      (.std (.left .quot), .un .lnot), (.std (.left .floordiv), .un .lnot),
      (.std (.left .rem), .un .lnot),
-     (.std (.left .pow), .neg),
      (.std (.left .lshift), .un .lnot), (.std (.left .rshift), .un .lnot),
      (.std (.left .band), .un .lnot), (.std (.left .bxor), .un .lnot),
      (.std (.left .bor), .un .lnot), (.std (.left (.cmp .eq)), .un .lnot),
@@ -930,7 +923,6 @@ theorem source_bad_pairs_current : gBadPairs pythonPrec printPrec =
      (.std (.right .land), .nary .land), (.std (.right .lor), .nary .lor),
      (.std (.right (.cmp .eq)), .un .lnot),
      (.std .unArg, .bin .pow), (.std .unArg, .un .lnot),
-     (.std .callee, .neg),
      (.std .arg, .ite), (.std .index, .tuple), (.std .elemFirst, .ite), (.std .elemRest, .ite),
      (.std .slicePart, .ite), (.std .slicePart, .slice), (.std .sliceLast, .ite),
      (.std .sliceLast, .slice),
@@ -942,7 +934,7 @@ private abbrev sb : Expr := .var "b"
 private abbrev sz : Expr := .var "z"
 
 /-- a tree of the fragment using every covered operator, with negative constants in loose and
-in tight positions (`-1*b`, `b**-2`: printed bare by `repr`) -/
+in tight positions (`(-1)*a`, `b**(-2)`: parenthesised like `str` does) -/
 def sourceSample : Expr :=
   .ite (.nary .lor [.un .lnot (.cmp .lt sa (.const (.int (-1)))), .nary .band [sa, sb]])
     (.nary .sum [.bin .quot (.nary .prod [.const (.int (-1)), sa, .bin .pow sb (.const (.int (-2)))])
@@ -952,22 +944,40 @@ def sourceSample : Expr :=
 
 example : InFragmentPy pythonPrec printPrec sourceSample = true := by decide +kernel
 example : (compilePieces printPrec sourceSample).map render
-    = .ok ("(-1*a*b**-2) / (a + -3) + a // b if not (a < -1) or a & b else ~f(a, b ^ z) << 1") := by
+    = .ok ("((-1)*a*b**(-2)) / (a + -3) + a // b if not (a < -1) or a & b else ~f(a, b ^ z) << 1") := by
   decide +kernel
 
-/-- the local condition is needed: `compile(Power(-2, a))` has the source `-2**a`, which the
-Python table (like Python) reads as `-(2**a)`; the pair (base of a power, negative constant) is
-in `source_bad_pairs_current` and the tree is outside the fragment -/
+/-- **every position admits a signed constant** (the repaired printer parenthesises it exactly
+where the context binds tighter than a sum): the local condition holds for the classes `neg` and
+`sfloat` at ALL positions — in particular (base of a power, negative constant), the former
+finding `compile:Power>negative-int` -/
+theorem neg_const_pairs_ok (g : GPos) (hg : g ∈ allGPos) :
+    gOk pythonPrec printPrec g .neg = true ∧ gOk pythonPrec printPrec g .sfloat = true := by
+  revert g; decide
+
+/-- the repaired source of `compile(Power(-2, a))` is `(-2)**a`; the tree is in the fragment and
+the Python table reads the source as the tree -/
+theorem compile_neg_base_source_ok :
+    InFragmentPy pythonPrec printPrec (.bin .pow (.const (.int (-2))) sa) = true ∧
+    (compilePieces printPrec (.bin .pow (.const (.int (-2))) sa)).map render = .ok "(-2)**a" ∧
+    ∃ ps, compilePieces printPrec (.bin .pow (.const (.int (-2))) sa) = .ok ps ∧
+      parseTop pythonPrec 0 (toks ps) = .ok (.bin .pow (.const (.int (-2))) sa) :=
+  ⟨by decide +kernel, by decide +kernel, _, rfl, by decide +kernel⟩
+
+/-- WHAT THE DEFECT WAS (the printer before the repair: `repr(c)`, never parenthesised —
+`constPiecesReprBare`): `compile(Power(-2, a))` had the source `-2**a`, which the Python table
+(like Python) reads as `-(2**a)` -/
 theorem compile_neg_base_source_cex :
-    C13R.InFragment pythonPrec printPrec (.bin .pow (.const (.int (-2))) sa) = false ∧
-    ∃ ps e', compilePieces printPrec (.bin .pow (.const (.int (-2))) sa) = .ok ps ∧
+    ∃ ps e', strG printPrec constPiecesReprBare (.bin .pow (.const (.int (-2))) sa) printPrec.none
+        = .ok ps ∧
+      render ps = "-2**a" ∧
       parseTop pythonPrec 0 (toks ps) = .ok e' ∧
       e' = .nary .prod [.const (.int (-1)), .bin .pow (.const (.int 2)) sa] ∧
       flattenAssoc e' ≠ flattenAssoc (.bin .pow (.const (.int (-2))) sa) :=
-  ⟨by decide +kernel, _, _, rfl, by decide +kernel, rfl, by decide +kernel⟩
+  ⟨_, _, rfl, by decide +kernel, by decide +kernel, rfl, by decide +kernel⟩
 
-/-- negative constants elsewhere in tight positions are inside the fragment: `a**-2`, `-1*a`,
-`a / -2`, `~-2` -/
+/-- negative constants in tight positions are inside the fragment: `a**(-2)`, `(-1)*a`,
+`a / (-2)`, `~(-2)` -/
 example : InFragmentPy pythonPrec printPrec
     (.nary .prod [.const (.int (-1)), .bin .quot (.bin .pow sa (.const (.int (-2)))) (.const (.int (-2))),
       .un .bnot (.const (.int (-2)))]) = true := by decide +kernel
@@ -976,7 +986,7 @@ example : InFragmentPy pythonPrec printPrec
 reads `not a == b` as `(not a) == b` (one level for all prefix operators), Python as
 `not (a == b)`; `notOk` excludes the tree -/
 theorem compile_not_scheme_cex :
-    C13R.InFragment pythonPrec printPrec (.cmp .eq (.un .lnot sa) sb) = true ∧
+    InFragment pythonPrec printPrec (.cmp .eq (.un .lnot sa) sb) = true ∧
     notOk pythonPrec printPrec (.cmp .eq (.un .lnot sa) sb) = false ∧
     parseTop pythonPrec 0 [.sym "not", .ident "a", .sym "==", .ident "b"]
       = .ok (.cmp .eq (.un .lnot sa) sb) :=
@@ -1131,16 +1141,19 @@ end
 private def va : Expr := .var "a"
 private def vb : Expr := .var "b"
 
-/-- `compile(Power(-2, a))` has the source `-2**a` (Python: `-(2**a)`), whereas the generic
-stringifier, and the repaired AST path, parenthesise the base -/
+/-- `compile(Power(-2, a))` has the source `(-2)**a`, like the generic stringifier and the AST
+path (before the repair of `CompileMapper.map_constant` it was `-2**a`, Python: `-(2**a)`) -/
 theorem compile_neg_base_witness :
     compilePieces Generated.printPrec (.bin .pow (.const (.int (-2))) va)
+      = .ok [sy "(", sy "-", .tok (.int 2), sy ")", sy "**", .tok (.ident "a")]
+    ∧ strG Generated.printPrec constPiecesReprBare (.bin .pow (.const (.int (-2))) va)
+        Generated.printPrec.none
       = .ok [sy "-", .tok (.int 2), sy "**", .tok (.ident "a")]
     ∧ strTop Generated.printPrec (.bin .pow (.const (.int (-2))) va)
       = .ok [sy "(", sy "-", .tok (.int 2), sy ")", sy "**", .tok (.ident "a")]
     ∧ toAst (.bin .pow (.const (.int (-2))) va)
       = .ok (.binop (.unop .usub (.const (.int 2))) .pow (.name "a")) := by
-  refine ⟨rfl, rfl, rfl⟩
+  refine ⟨rfl, rfl, rfl, rfl⟩
 
 /-- `compile(Comparison(LogicalNot(a), "==", b))` has the source `not a == b`; Python reads it as
 `not (a == b)` -/
